@@ -453,6 +453,9 @@ class HttpProxyPlugin(HttpProtocolHandlerPlugin):
                         assert self.pipeline_request is not None
                         r = plugin.handle_client_request(self.pipeline_request)
                         if r is None:
+                            # Request was dropped by the plugin, next
+                            # request must start with a fresh parser.
+                            self.pipeline_request = None
                             return
                         self.pipeline_request = r
                     assert self.pipeline_request is not None
